@@ -49,7 +49,9 @@
        C02_vm_switch_exitwith, C02_vm_switch_own_breakout, C02_vm_switch_throw, C02_vm_switch_breakout and their reference sides).
        AN EXIT RAISED INSIDE AN OPERAND: breakOut in every operand position (the waiting operands are dropped with the regions pop_clearing
        clears: C02_vm_operand_breakout), a throw where nothing waits on the stack (C02_vm_operand_throw_partial), also in x = e / private _x = e.
-       NOT covered by the simulation: exitWith inside an operand, a throw raised while evaluated operands wait on the stack (right operand,
+       exitWith INSIDE AN OPERAND, in every position (the waiting operands die with the scope's part of the operand stack): zexexit,
+       C02_vm_operand_exitwith, C02_ref_operand_exitwith, at the root C02_vm_operand_exitwith_root.
+       NOT covered by the simulation: a throw raised while evaluated operands wait on the stack (right operand,
        later array elements), a throw past the last handler, breakOut to a name no scope carries, waitUntil, nil operands, a while loop
        with an empty body or a non-boolean condition - for these the
        per-construct theorems below and the program-level differential are the evidence;
@@ -1477,12 +1479,12 @@ Proof. exact (proj1 (proj2 (proj2 (proj2 (proj2 (proj2 (proj2 (proj2 (proj2 (pro
 Print Assumptions C02_vm_scope_left.
 Theorem C02_ref_elements_left : forall s l a s', zelemsleave s l a s' ->
   exists f0, forall f, f0 <= f -> forall acc, go_arr f s l acc = (oa a, s').
-Proof. exact (proj2 (proj2 (proj2 (proj2 (proj2 (proj2 (proj2 (proj2 (proj2 (proj2 (proj2 (proj2 (proj2 (proj2 ref_runs_z)))))))))))))). Qed.
+Proof. exact (proj1 (proj2 (proj2 (proj2 (proj2 (proj2 (proj2 (proj2 (proj2 (proj2 (proj2 (proj2 (proj2 (proj2 (proj2 ref_runs_z))))))))))))))). Qed.
 Print Assumptions C02_ref_elements_left.
 Theorem C02_vm_elements_left : forall s l a s', zelemsleave s l a s' ->
   forall r c f restf pre post, Mach s r c f restf ->
     f_code f = pre ++ flat_map compile_expr l ++ post -> f_pos f = length pre -> Leaves0 a s' r f restf (c_values c).
-Proof. exact (proj2 (proj2 (proj2 (proj2 (proj2 (proj2 (proj2 (proj2 (proj2 (proj2 (proj2 (proj2 (proj2 (proj2 vm_runs_z)))))))))))))). Qed.
+Proof. exact (proj1 (proj2 (proj2 (proj2 (proj2 (proj2 (proj2 (proj2 (proj2 (proj2 (proj2 (proj2 (proj2 (proj2 (proj2 vm_runs_z))))))))))))))). Qed.
 Print Assumptions C02_vm_elements_left.
 (* derivations.  (1) r = call { scopeName "o"; x = [1, 2 + (call { 7 breakOut "o" }), 3]; diag_log "dead"; 1 }; r   yields 7: when breakOut
    runs, the element 1 and the left operand 2 wait on the operand stack; they go with the regions pop_clearing drops, x is not assigned *)
@@ -1547,3 +1549,78 @@ Example operand_exits_ref_and_vm_agree :
   run_ref 200 [SExpr ex_pending_throw] = "OK:V<5>" /\
   run_final (load (create_rt [] 0 0 (100 * 100) 150) (compile_block [SExpr ex_pending_throw])) = "-1:0:3:60095,M<VALUE 5>,".
 Proof. repeat split; vm_compute; reflexivity. Qed.
+
+(* ---- exitWith INSIDE AN OPERAND (relations zexexit / zelemsexit, constructors ZBExitIn / ZBExitAssign / ZBExitLocal of zblock in VM/SimExit.v).
+   `if c exitWith {..}` with a true condition may stand in any operand position - operand of a unary operator, either operand of a binary one,
+   any element of an array, nested - of a statement e, x = e or private _x = e: the scope in which the statement stands ends with the
+   handler's value all the same (BExit: C02_vm_runs_blocks_with_exit / C02_ref_runs_blocks_with_exit above speak about such blocks now,
+   C02_program_runs_with_exit about a root scope left that way).  What the machine does with the operands that were already evaluated:
+   they wait in the part of the operand stack that belongs to the scope that dies; exitWith marks that frame as finished and runs the handler
+   as a frame of its own on top of them; when the handler's value arrives, the dead frame completes with it and clear_values drops everything
+   above its base - the waiting operands included.  Nothing of the abandoned expression survives, the pending operator and the assignment do
+   not run.  Every position is covered (no restriction as for throw: the waiting operands are never looked at again). *)
+Theorem C02_ref_operand_exitwith : forall s e v s', zexexit s e v s' ->
+  exists f0, forall f, f0 <= f -> eval f s e = (OExit v, s').
+Proof. exact (proj1 (proj2 (proj2 (proj2 (proj2 (proj2 (proj2 (proj2 (proj2 (proj2 (proj2 (proj2 (proj2 (proj2 (proj2 (proj2 ref_runs_z)))))))))))))))). Qed.
+Print Assumptions C02_ref_operand_exitwith.
+Theorem C02_vm_operand_exitwith : forall s e v s', zexexit s e v s' ->
+  forall r c f fc rest pre post pend below, Mach s r c f (fc :: rest) ->
+    f_code f = pre ++ compile_expr e ++ post -> f_pos f = length pre ->
+    c_values c = pend ++ below -> length below = f_base f -> f_base fc <= length below ->
+    exists r' c' fc' rest', Steps r r' /\ Mach (pop_scope s') r' c' fc' rest' /\ c_values c' = cv v :: below /\
+      kept fc fc' /\ Forall2 kept rest rest'.
+Proof. exact (proj1 (proj2 (proj2 (proj2 (proj2 (proj2 (proj2 (proj2 (proj2 (proj2 (proj2 (proj2 (proj2 (proj2 (proj2 (proj2 vm_runs_z)))))))))))))))). Qed.
+Print Assumptions C02_vm_operand_exitwith.
+Theorem C02_ref_elements_exitwith : forall s l v s', zelemsexit s l v s' ->
+  exists f0, forall f, f0 <= f -> forall acc, go_arr f s l acc = (OExit v, s').
+Proof. exact (proj2 (proj2 (proj2 (proj2 (proj2 (proj2 (proj2 (proj2 (proj2 (proj2 (proj2 (proj2 (proj2 (proj2 (proj2 (proj2 ref_runs_z)))))))))))))))). Qed.
+Print Assumptions C02_ref_elements_exitwith.
+Theorem C02_vm_elements_exitwith : forall s l v s', zelemsexit s l v s' ->
+  forall r c f fc rest pre post pend below, Mach s r c f (fc :: rest) ->
+    f_code f = pre ++ flat_map compile_expr l ++ post -> f_pos f = length pre ->
+    c_values c = pend ++ below -> length below = f_base f -> f_base fc <= length below ->
+    exists r' c' fc' rest', Steps r r' /\ Mach (pop_scope s') r' c' fc' rest' /\ c_values c' = cv v :: below /\
+      kept fc fc' /\ Forall2 kept rest rest'.
+Proof. exact (proj2 (proj2 (proj2 (proj2 (proj2 (proj2 (proj2 (proj2 (proj2 (proj2 (proj2 (proj2 (proj2 (proj2 (proj2 (proj2 vm_runs_z)))))))))))))))). Qed.
+Print Assumptions C02_vm_elements_exitwith.
+(* ... and in the ROOT scope of a program (VM/SimProg.v): the run ends with result `empty`, no frame, exactly the handler's value *)
+Theorem C02_vm_operand_exitwith_root : forall s e v s', zexexit s e v s' ->
+  forall r c f pre post, Mach s r c f [] -> f_base f = 0 -> f_code f = pre ++ compile_expr e ++ post -> f_pos f = length pre ->
+  exists rf cf, Steps r rf /\ cur rf = Some cf /\ c_frames cf = [] /\ c_values cf = [cv v] /\
+    world rf = (mnss (st_nss s'), st_trace s') /\ do_iter rf = Ok (Return REmpty rf).
+Proof. exact (proj1 (proj2 (proj2 (proj2 (proj2 (proj2 (proj2 (proj2 (proj2 (proj2 (proj2 (proj2 (proj2 (proj2 (proj2 (proj2 root_exits)))))))))))))))). Qed.
+Print Assumptions C02_vm_operand_exitwith_root.
+(* a derivation:  r = call { x = [1, 2 + (if (true) exitWith { diag_log "h"; 9 }), 3]; diag_log "dead"; 1 }; r   yields 9 and logs h: when exitWith
+   runs, the element 1 and the left operand 2 wait in the part of the operand stack that belongs to the scope of the call; that scope ends
+   with the handler's value, its part of the stack is dropped, x is not assigned, nothing behind the statement runs *)
+Definition ex_operand_exit_prog : list stmt :=
+  [SAssign "r" (EUnary "call" (ECode
+     [SAssign "x" (EArr [ENum 1;
+                         EBinary "+" (ENum 2) (EBinary "exitWith" (EUnary "if" (EBool true))
+                                                  (ECode [SExpr (EUnary "diag_log" (EStr "h")); SExpr (ENum 9)]));
+                         ENum 3]);
+      SExpr (EUnary "diag_log" (EStr "dead")); SExpr (ENum 1)]));
+   SExpr (EVar "r")].
+Example operand_exitwith_inhabited : exists v s', zprog init_state RNone ex_operand_exit_prog v s' /\ v = RNum 9 /\ st_trace s' = ["h"] /\ glob_of s' "x" = None.
+Proof.
+  eexists _, _. split.
+  { eapply ZPCons.
+    - eapply ZSAssign.
+      { discriminate. } { reflexivity. }
+      { eapply ZCallU; [reflexivity|intros ? ?; discriminate|eapply ZCode|].
+        eapply ZBExitAssign. eapply ZXArr. eapply ZXETl; [eapply ZPure; eapply PNum|split; discriminate|].
+        eapply ZXEHd. eapply ZXBinR; [eapply ZPure; eapply PNum|].
+        eapply ZXHere; [reflexivity| |eapply ZCode|].
+        - eapply ZIf; [reflexivity|intros ? ?; discriminate|eapply ZPure; eapply PBool].
+        - eapply ZBCons.
+          + eapply ZSExprV. eapply ZDiag; [reflexivity|intros ? ?; discriminate|eapply ZPure; eapply PStr|split; discriminate|reflexivity].
+          + eapply ZBLast. eapply ZSExprV. eapply ZPure. eapply PNum. }
+      { split; discriminate. }
+    - eapply ZPLast. eapply ZSExprV. eapply ZPure. eapply PVarG; reflexivity. }
+  repeat split; reflexivity.
+Qed.
+(* ... and the program evaluated inside Coq on the reference semantics and on the VM model *)
+Example operand_exitwith_ref_and_vm_agree :
+  run_ref 200 ex_operand_exit_prog = "OK:M<h>,V<9>" /\
+  run_final (load (create_rt [] 0 0 (100 * 100) 150) (compile_block ex_operand_exit_prog)) = "-1:0:3:60019,M<h>,3:60095,M<VALUE 9>,".
+Proof. split; vm_compute; reflexivity. Qed.
